@@ -597,6 +597,33 @@ func shortCircuitFacts(f Fact, depth int) []Fact {
 		}
 		return nil
 	}
+	// a flag assembled from constants only (t := false; if c { t = true }): the value tells which branch was taken
+	{
+		allConst, match := true, -1
+		for i, e := range phi.Edges {
+			c, isC := e.(*ssa.Const)
+			if !isC || c.Value == nil || c.Value.Kind() != constant.Bool {
+				allConst = false
+				break
+			}
+			if constant.BoolVal(c.Value) == ff.True {
+				if match >= 0 {
+					match = -2
+				} else if match == -1 {
+					match = i
+				}
+			}
+		}
+		if allConst && match >= 0 {
+			pred := phi.Block().Preds[match]
+			res := factsRec(pred, depth+1)
+			if ef := EdgeFact(pred, phi.Block()); ef != nil {
+				res = append(res, *ef)
+				res = append(res, shortCircuitFacts(*ef, depth+1)...)
+			}
+			return res
+		}
+	}
 	idx := ShortCircuitOperand(phi, ff.True)
 	if idx < 0 {
 		// several edges carrying the same value, the rest the constant !truth ("ok" cleared on one path): the value still
